@@ -499,6 +499,37 @@ def runPredicates (sc : Scn) (fx : Facts) (evs : List Ev) : List (String × Opti
       | _ => some s!"hopeless_parameter_but_{outcomeClass ires}"
   [("C01", c01), ("C02", c02), ("C03", c03), ("C04", c04), ("C06", c06), ("C13", c13)]
 
+/-! ### converter generators: the traced invocations against the model -/
+
+def giOf (r : List (List String)) : List (Nat × Vtx × String) := r.filterMap (fun l => match l with
+  | ["gi", g, v, res] => some (natOf g + 2, parseVtx v, res)
+  | _ => none)
+
+def showGen : GenRes → String
+  | .nothing => "nil" | .err => "err" | .func f => toString f
+
+/-- per run: every traced invocation is on a snapshot vertex and returned what its rule says; without an
+error every rule-driven generator was invoked exactly once for every snapshot vertex; with one, the
+failing invocation is the last -/
+def giConform (sc : Scn) (bld : Builder) (snap : List Vtx) (errExpected : Bool) (rawRuns : List (List (List String))) : Option String :=
+  let ruleGens := bld.gens.filter (fun g => g ≥ 2)
+  rawRuns.findSome? (fun raw =>
+    let gi := giOf raw
+    (gi.findSome? (fun t =>
+      if !snap.contains t.2.1 then some s!"generator_invoked_for_{showVtx t.2.1}_outside_the_snapshot"
+      else if showGen (sc.genOf t.1 t.2.1) ≠ t.2.2 then some s!"generator_{t.1}_on_{showVtx t.2.1}_model={showGen (sc.genOf t.1 t.2.1)}_impl={t.2.2}"
+      else none)).or
+    (if errExpected then
+      (if sc.genRules.isEmpty then none
+       else if (gi.getLast?.map (·.2.2)) ≠ some "err" then some "generator_error_not_the_last_invocation"
+       else if (gi.dropLast.any (fun t => t.2.2 == "err")) then some "generators_invoked_after_an_error"
+       else none)
+     else
+      let got := gi.map (fun t => (t.1, t.2.1))
+      let want := snap.flatMap (fun v => ruleGens.map (fun g => (g, v)))
+      if want.all (fun w => got.count w == want.count w) ∧ got.length = want.length then none
+      else some s!"generator_invocations_model={want.length}_impl={got.length}"))
+
 def verdictStr (v : Option String) : String := match v with | none => "ok" | some m => "FAIL:" ++ noSpace m
 
 def runCall (fl : Flags) (b : Block) (conv : Bool := false) : Res :=
@@ -524,37 +555,17 @@ def runCall (fl : Flags) (b : Block) (conv : Bool := false) : Res :=
   -- are in the graph (a snapshot; the model iterates it in representation order, the code in map order);
   -- the first error aborts the call, generated functions join the converter list
   let snap := genVerts (preGenGraph bld sc.fn target)
-  let giOf := fun (r : List (List String)) => r.filterMap (fun l => match l with
-    | ["gi", g, v, res] => some (natOf g + 2, parseVtx v, res)
-    | _ => none)
-  let showGen : GenRes → String := fun r => match r with | .nothing => "nil" | .err => "err" | .func f => toString f
-  -- every traced invocation is on a snapshot vertex and returned what the rule says
-  let giBad := runsG.findSome? (fun rx => (giOf rx.2).findSome? (fun t =>
-    if !snap.contains t.2.1 then some s!"generator_invoked_for_{showVtx t.2.1}_outside_the_snapshot"
-    else if showGen (sc.genOf t.1 t.2.1) ≠ t.2.2 then some s!"generator_{t.1}_on_{showVtx t.2.1}_model={showGen (sc.genOf t.1 t.2.1)}_impl={t.2.2}"
-    else none))
+  let rawRuns := runsG.map (·.2)
   match expandGens sc.genOf bld snap with
   | none =>
     let ok := runs.all (fun r => resOf r = ["err", "generr"])
-    -- the traced invocations end with the failing one
-    let giEnd := runsG.findSome? (fun rx =>
-      let gi := giOf rx.2
-      if sc.genRules.isEmpty then none
-      else if (gi.getLast?.map (·.2.2)) ≠ some "err" then some "generator_error_not_the_last_invocation"
-      else if (gi.dropLast.any (fun t => t.2.2 == "err")) then some "generators_invoked_after_an_error"
-      else none)
-    { conform := (if ok then none else some s!"failing_generator_expected_error_got_{noSpace (" ".intercalate (resOf (runs.headD [])))}").or (giBad.or giEnd),
+    { conform := (if ok then none else some s!"failing_generator_expected_error_got_{noSpace (" ".intercalate (resOf (runs.headD [])))}").or
+        (giConform sc bld snap true rawRuns),
       propNA := true,
       props := [("C06", if runs.any (fun r => isPanicRes (resOf r)) then "FAIL:panic_when_a_converter_generator_reports_an_error" else "ok")],
       stats := ["outcome=generr", "execs=0", s!"convs={bld.convs.length}", "gens=err"] }
   | some bldX =>
-  -- without an error every generator was invoked exactly once for every snapshot vertex
-  let ruleGens := bld.gens.filter (fun g => g ≥ 2)
-  let giAll := runsG.findSome? (fun rx =>
-    let gi := (giOf rx.2).map (fun t => (t.1, t.2.1))
-    let want := snap.flatMap (fun v => ruleGens.map (fun g => (g, v)))
-    if want.all (fun w => gi.count w == want.count w) ∧ gi.length = want.length then none
-    else some s!"generator_invocations_model={want.length}_impl={gi.length}")
+  let giAll := giConform sc bld snap false rawRuns
   let generated := bldX.convs.length - bld.convs.length
   let genStat := if bld.gens.isEmpty then "gens=none" else if generated > 0 then "gens=fired" else "gens=idle"
   let bld := bldX
@@ -583,7 +594,7 @@ def runCall (fl : Flags) (b : Block) (conv : Bool := false) : Res :=
     let preds := runPredicates sc fx evs
     let preds := if conv && !rx.2.isEmpty then preds.filter (fun p => p.1 != "C03") else preds
     (replayRun fl sc bld cgr target evs ((resOf evs).head? == some "crash") (conv && !rx.2.isEmpty), preds, evs))
-  let conform := (giBad.or giAll).or (cd.or (outs.findSome? (fun o => o.1.conform)))
+  let conform := giAll.or (cd.or (outs.findSome? (fun o => o.1.conform)))
   -- aggregate predicates over runs
   let pids := ["C01", "C02", "C03", "C04", "C06", "C13"]
   let agg := pids.map (fun p => (p, verdictStr (outs.findSome? (fun o => (o.2.1.find? (fun q => q.1 == p)).bind (·.2)))))
